@@ -1,6 +1,7 @@
 package c20
 
 import (
+	"encoding/json"
 	"math/rand"
 	"os"
 	"sort"
@@ -180,26 +181,51 @@ func observeTenant(has bool, s string) traceRec {
 	return rec
 }
 
+type fixedInput struct {
+	Has bool  `json:"has"`
+	In  []int `json:"in"`
+}
+
 // TestRecordTenant: code -> spec. Writes $VERIF_TRACE (ndjson, one observation per line).
 // VERIF_CORRUPT=n perturbs one logged field of the n-th record (binding self-test).
+// VERIF_INPUTS=file replaces the generator by the inputs listed in the file (replay of a finding).
 func TestRecordTenant(t *testing.T) {
 	tracePath := os.Getenv("VERIF_TRACE")
 	if tracePath == "" {
 		t.Skip("VERIF_TRACE not set")
 	}
 	n := abs.EnvInt("VERIF_N", 2000)
-	corrupt := abs.EnvInt("VERIF_CORRUPT", 0)
+	corrupt := envIntFor("VERIF_CORRUPT", "TRACE")
 	res := &abs.Result{}
 	w, err := abs.NewNDJSONWriter(tracePath)
 	if err != nil {
 		res.Fatal = err.Error()
-		res.Write(t)
+		writeResult(t, res, "tenant_record")
 		return
 	}
 	r := rand.New(rand.NewSource(abs.Seed()*7919 + 20))
+	var fixed []fixedInput
+	if p := os.Getenv("VERIF_INPUTS"); p != "" {
+		if err := abs.ReadNDJSON(p, func(line []byte) error {
+			var f fixedInput
+			if err := json.Unmarshal(line, &f); err != nil {
+				return err
+			}
+			fixed = append(fixed, f)
+			return nil
+		}); err != nil {
+			res.Fatal = err.Error()
+		}
+		n = len(fixed)
+	}
 	mutatedAccepted := 0
 	for i := 1; i <= n; i++ {
-		has, s := genHeader(r)
+		has, s := false, ""
+		if fixed != nil {
+			has, s = fixed[i-1].Has, b2s(fixed[i-1].In)
+		} else {
+			has, s = genHeader(r)
+		}
 		var rec traceRec
 		if p := guard(func() { rec = observeTenant(has, s) }); p != "" {
 			res.Mismatch(abs.Mismatch{Sig: "tenant:panic", Case: map[string]any{"has": has, "in": s2b(s)}, Got: p, Want: "no panic"})
@@ -228,5 +254,5 @@ func TestRecordTenant(t *testing.T) {
 	}
 	res.AddExtra("trace_records", w.N)
 	res.AddExtra("trace_records_multi_ok", mutatedAccepted)
-	res.Write(t)
+	writeResult(t, res, "tenant_record")
 }
